@@ -280,7 +280,7 @@ func genHist(t *rapid.T, bproc bool) histCase {
 		switch kind {
 		case "sel":
 			s.K = "sel"
-			s.Form = fw.Uniform(t, "form", 4)
+			s.Form = fw.Uniform(t, "form", 5)
 			m.plainRead(s.T)
 			readInTxn[s.T] = true
 		case "sfu":
@@ -352,7 +352,8 @@ const (
 
 func tableName(t int) string { return fmt.Sprintf("t%d", t+1) }
 
-// tableRef spells the table: bare name, file name, absolute path, bare name with an alias (SELECT only).
+// tableRef spells the table: bare name, file name, absolute path; SELECT only: bare name with an alias,
+// format specified function.
 func tableRef(dir string, t, form int) string {
 	switch form {
 	case 1:
@@ -361,6 +362,8 @@ func tableRef(dir string, t, form int) string {
 		return "`" + filepath.Join(dir, tableName(t)+".csv") + "`"
 	case 3:
 		return tableName(t) + " x"
+	case 4:
+		return "CSV(',', `" + tableName(t) + ".csv`)"
 	}
 	return tableName(t)
 }
@@ -432,7 +435,7 @@ type bOutcome struct {
 }
 
 // runB is one other process: change + COMMIT on its own session (or a real csvq process), then it ends.
-func runB(c histCase, dir, sql string, wait time.Duration) bOutcome {
+func runB(c histCase, dir, sql string, wait, procLimit time.Duration) bOutcome {
 	if !c.BProc {
 		s, err := run.NewSess(run.Opt{Dir: dir, WaitTimeout: wait})
 		if err != nil {
@@ -451,26 +454,19 @@ func runB(c histCase, dir, sql string, wait time.Duration) bOutcome {
 	}
 	home := filepath.Join(fw.WorkDir(), "clihome")
 	_ = os.MkdirAll(home, 0755)
-	limit := 120 * time.Second
-	for attempt := 0; ; attempt++ {
-		res := run.CLI(run.CLIOpt{Bin: bin, Dir: dir, Home: home, Timeout: limit,
-			Args: []string{"--wait-timeout", strconv.FormatFloat(wait.Seconds(), 'f', -1, 64), "-q", sql}})
-		switch {
-		case res.TimedOut && attempt == 0:
-			fw.AddExtra("watchdog_retries", 1)
-			limit = 4*limit + wait
-			continue
-		case res.TimedOut:
-			return bOutcome{class: "hang", hang: true, msg: "process did not end"}
-		case res.Code == 0:
-			return bOutcome{}
-		case res.Code == 8 && strings.Contains(res.Stderr, "lock wait timeout period exceeded"):
-			return bOutcome{class: lockTO, msg: strings.TrimSpace(res.Stderr)}
-		case res.Code == 8:
-			return bOutcome{class: "E8/other", msg: strings.TrimSpace(res.Stderr)}
-		}
-		return bOutcome{class: fmt.Sprintf("exit%d", res.Code), msg: strings.TrimSpace(res.Stderr)}
+	res := run.CLI(run.CLIOpt{Bin: bin, Dir: dir, Home: home, Timeout: procLimit + wait,
+		Args: []string{"--wait-timeout", strconv.FormatFloat(wait.Seconds(), 'f', -1, 64), "-q", sql}})
+	switch {
+	case res.TimedOut:
+		return bOutcome{class: "hang", hang: true, msg: "process did not end"}
+	case res.Code == 0:
+		return bOutcome{}
+	case res.Code == 8 && strings.Contains(res.Stderr, "lock wait timeout period exceeded"):
+		return bOutcome{class: lockTO, msg: strings.TrimSpace(res.Stderr)}
+	case res.Code == 8:
+		return bOutcome{class: "E8/other", msg: strings.TrimSpace(res.Stderr)}
 	}
+	return bOutcome{class: fmt.Sprintf("exit%d", res.Code), msg: strings.TrimSpace(res.Stderr)}
 }
 
 var (
@@ -558,7 +554,18 @@ func readFiles(dir string, n int) []string {
 	return out
 }
 
+// checkHist: a process B that does not end within the watchdog limit only counts when the whole case,
+// re-run at once from scratch with a four times longer limit, shows it again.
 func checkHist(c histCase) (fw.Outcome, *fw.Violation) {
+	o, v := checkHistLimit(c, 120*time.Second)
+	if v != nil && v.Sig == "b_process_hang" {
+		fw.AddExtra("watchdog_retries", 1)
+		return checkHistLimit(c, 480*time.Second)
+	}
+	return o, v
+}
+
+func checkHistLimit(c histCase, procLimit time.Duration) (fw.Outcome, *fw.Violation) {
 	nt := len(c.Tables)
 	o := fw.Outcome{Classes: []string{fmt.Sprintf("tables=%d", nt)}}
 	if nt < 1 || nt > 2 {
@@ -632,7 +639,8 @@ func checkHist(c histCase) (fw.Outcome, *fw.Violation) {
 	nontrivial := false
 	readInTxn := make([]bool, nt)  // A has read the table in its current transaction
 	bSinceRead := make([]bool, nt) // ... and a B commit to it succeeded afterwards
-	endedStale := make([]bool, nt) // the transaction that just ended had a cache differing from the file
+	prevSet := make([]bool, nt)    // A had the table cached in an earlier transaction and has not accessed it since
+	prev := make([][]mrow, nt)     // ... that cached copy
 	bUnloaded := make([]bool, nt)  // B committed to the table while A had it not loaded (but another one loaded)
 	noteRead := func(t int) {
 		if readInTxn[t] && bSinceRead[t] {
@@ -665,7 +673,7 @@ func checkHist(c histCase) (fw.Outcome, *fw.Violation) {
 			"R":  "reload_for_update_wrong",
 			"Rx": "no_reload_on_first_update_access",
 		}[rule]
-		if endedStale[t] && (rule == "L" || rule == "U") {
+		if prevSet[t] && (rule == "L" || rule == "U") {
 			sig = "read_after_commit_or_rollback_not_current_file"
 		}
 		return fw.V(sig, "%s in transaction A returned %s; expected %s = %s (file now %s)%s", stmt, render(rows), render(want), ruleText[rule], render(m.F[t]), tail())
@@ -687,13 +695,13 @@ func checkHist(c histCase) (fw.Outcome, *fw.Violation) {
 				return o, v
 			}
 			class("A.select:" + rule)
-			if rule == "L" && endedStale[s.T] {
-				class("A.select:after_end_sees_current_file")
+			if rule == "L" && prevSet[s.T] && !sameRows(prev[s.T], want) {
+				class("A.select:after_end_sees_current_file_not_old_cache")
 			}
 			if rule == "L" && bUnloaded[s.T] {
 				class("two_table:B_commit_to_unloaded_table_then_A_reads_it")
 			}
-			endedStale[s.T], bUnloaded[s.T] = false, false
+			prevSet[s.T], bUnloaded[s.T] = false, false
 			noteRead(s.T)
 			tok("s" + rule + tn)
 
@@ -709,10 +717,10 @@ func checkHist(c histCase) (fw.Outcome, *fw.Violation) {
 				return o, v
 			}
 			class("A.select_for_update:" + rule)
-			if rule == "U" && endedStale[s.T] {
-				class("A.select_for_update:after_end_sees_current_file")
+			if rule == "U" && prevSet[s.T] && !sameRows(prev[s.T], want) {
+				class("A.select_for_update:after_end_sees_current_file_not_old_cache")
 			}
-			endedStale[s.T], bUnloaded[s.T] = false, false
+			prevSet[s.T], bUnloaded[s.T] = false, false
 			noteRead(s.T)
 			tok("f" + rule + tn)
 
@@ -727,7 +735,7 @@ func checkHist(c histCase) (fw.Outcome, *fw.Violation) {
 			cch.rows = edit(cch.rows, s.K, s.ID, atag, s.Null)
 			cch.dirty = true
 			class("A." + s.K + ":" + rule)
-			endedStale[s.T], bUnloaded[s.T] = false, false
+			prevSet[s.T], bUnloaded[s.T] = false, false
 			tok("d" + rule + tn)
 
 		case "insfrom":
@@ -742,15 +750,14 @@ func checkHist(c histCase) (fw.Outcome, *fw.Violation) {
 			cch.rows = append(cch.rows, src...)
 			cch.dirty = true
 			class("A.insert_select:" + rule + "<-" + srule)
-			endedStale[s.T], bUnloaded[s.T] = false, false
-			endedStale[s.Src], bUnloaded[s.Src] = false, false
+			prevSet[s.T], bUnloaded[s.T] = false, false
+			prevSet[s.Src], bUnloaded[s.Src] = false, false
 			tok("i" + rule + srule + tn)
 
 		case "commit", "rollback":
 			for t := 0; t < nt; t++ {
-				endedStale[t] = m.C[t] != nil && !(s.K == "commit" && m.C[t].fu && m.C[t].dirty) && !sameRows(m.C[t].rows, m.F[t])
-				if s.K == "rollback" && m.C[t] != nil && m.C[t].dirty {
-					endedStale[t] = true
+				if m.C[t] != nil {
+					prevSet[t], prev[t] = true, clone(m.C[t].rows)
 				}
 				readInTxn[t], bSinceRead[t], bUnloaded[t] = false, false, false
 			}
@@ -789,7 +796,7 @@ func checkHist(c histCase) (fw.Outcome, *fw.Violation) {
 			sql := changeSQL(tableName(s.T), s.BK, s.ID, btag, s.Null) + " COMMIT;"
 			before := readFiles(dir, nt)
 			mustFail := m.held(s.T)
-			out := runB(c, dir, sql, bWait)
+			out := runB(c, dir, sql, bWait, procLimit)
 			retried := false
 			if out.class == "harness" {
 				return o, fw.Harness("B: %s", out.msg)
@@ -798,13 +805,13 @@ func checkHist(c histCase) (fw.Outcome, *fw.Violation) {
 				// nobody holds the table: a timeout can only come from a busy machine; judge a patient attempt
 				fw.AddExtra("b_success_retries", 1)
 				retried = true
-				out = runB(c, dir, sql, bWaitRetry)
+				out = runB(c, dir, sql, bWaitRetry, procLimit)
 			}
 			if mustFail && out.class != lockTO && strings.HasPrefix(out.class, "E8/") {
 				// the 50 ms were over before the first attempt to take the lock (context done): judge a longer wait
 				fw.AddExtra("b_timeout_retries", 1)
 				retried = true
-				out = runB(c, dir, sql, 2*time.Second)
+				out = runB(c, dir, sql, 2*time.Second, procLimit)
 			}
 			line := "B: " + sql
 			if out.class != "" {
@@ -817,7 +824,7 @@ func checkHist(c histCase) (fw.Outcome, *fw.Violation) {
 			}
 			trace = append(trace, line)
 			if out.hang {
-				return o, fw.V("b_process_hang", "process B did not end within its limit twice%s", tail())
+				return o, fw.V("b_process_hang", "process B did not end within %v%s", procLimit, tail())
 			}
 			after := readFiles(dir, nt)
 			if mustFail {
@@ -885,7 +892,7 @@ func checkHist(c histCase) (fw.Outcome, *fw.Violation) {
 	return o, nil
 }
 
-const ruleDoc = "1-2 CSV tables (id, v; 0-4 rows, NULL cells) and a history of 4-20 steps generated up front: transaction A (one in-process session for the whole history) does SELECT (table spelled as name / file name / absolute path / aliased), SELECT FOR UPDATE, INSERT, UPDATE, DELETE, INSERT..SELECT from the other table, COMMIT, ROLLBACK; between A's statements other processes B (each a fresh Session+Transaction+Processor on the same directory, 50 ms lock wait) UPDATE/INSERT/DELETE one table, COMMIT through the real file layer and end. Model per table: file contents F and A's cache (none | snapshot, for-update flag, own changes): plain SELECT loads F if nothing is cached, else returns the cache; the first data-changing / FOR UPDATE access to a copy loaded by a plain SELECT reloads F (the documented exception) and holds the table; later reads = snapshot + own changes; COMMIT writes changed tables and empties the cache, ROLLBACK empties it. Every A read is compared with the model as a sequence of rows (text + NULL-ness); B must commit iff A does not hold the table for update, else fail with the lock-timeout error 90082 leaving the files byte-identical; at the end the files (read by a new session) equal F. Non-trivial = a successful B commit between two A reads of the same table inside one A transaction; distinct by the compressed sequence of (step kind, model rule, table)"
+const ruleDoc = "1-2 CSV tables (id, v; 0-4 rows, NULL cells) and a history of 4-20 steps generated up front: transaction A (one in-process session for the whole history) does SELECT (table spelled as name / file name / absolute path / aliased / CSV() table function), SELECT FOR UPDATE, INSERT, UPDATE, DELETE, INSERT..SELECT from the other table, COMMIT, ROLLBACK; between A's statements other processes B (each a fresh Session+Transaction+Processor on the same directory, 50 ms lock wait) UPDATE/INSERT/DELETE one table, COMMIT through the real file layer and end. Model per table: file contents F and A's cache (none | snapshot, for-update flag, own changes): plain SELECT loads F if nothing is cached, else returns the cache; the first data-changing / FOR UPDATE access to a copy loaded by a plain SELECT reloads F (the documented exception) and holds the table; later reads = snapshot + own changes; COMMIT writes changed tables and empties the cache, ROLLBACK empties it. Every A read is compared with the model as a sequence of rows (text + NULL-ness); B must commit iff A does not hold the table for update, else fail with the lock-timeout error 90082 leaving the files byte-identical; at the end the files (read by a new session) equal F. Non-trivial = a successful B commit between two A reads of the same table inside one A transaction; distinct by the compressed sequence of (step kind, model rule, table)"
 
 var assumptions = []string{
 	"other processes act between A's statements (statement-level interleaving); interleavings inside one statement's file-system steps belong to C09",
@@ -896,14 +903,14 @@ var assumptions = []string{
 
 func TestC20History(t *testing.T) {
 	fw.Run(t, fw.Spec[histCase]{
-		ID: "C20", Name: "history", Quick: 2400, Thorough: 48000,
+		ID: "C20", Name: "history", Quick: 4800, Thorough: 96000,
 		Gen: genCase, Check: checkHist, Rule: ruleDoc, Assumptions: assumptions,
 	})
 }
 
 func TestC20HistoryProcesses(t *testing.T) {
 	fw.Run(t, fw.Spec[histCase]{
-		ID: "C20", Name: "history_processes", Quick: 48, Thorough: 960,
+		ID: "C20", Name: "history_processes", Quick: 96, Thorough: 1920,
 		Gen: genCaseProc, Check: checkHist,
 		Rule:        "the same histories with every B step executed by a real csvq process (csvq --wait-timeout 0.05 -q '<change>; COMMIT;' in the table directory): exit 0 iff A does not hold the table, otherwise exit code 8 with the lock wait timeout message and unchanged files",
 		Assumptions: assumptions,
